@@ -120,6 +120,13 @@ def full_config(rng, nservers=1, nodeid=None, minimal=False, drop=(), tmrnum=Non
         # a device profile with more PDO records than the stack is built for (CO_TPDO_N = CO_RPDO_N = 4): the records are plain values
         gen.add_tpdo(cfg, 4, 0x40000190, rng.choice([1, 254, 255]), 0, rng.choice([0, 5]), [gen.maplink(0x2000, 0, 8)])
         gen.add_rpdo(cfg, 4, 0x210, rng.choice([1, 255]), [gen.maplink(0x2000, 1, 16)])
+    if "subs" in drop:
+        # records lacking single sub-entries (inhibit / event time, transmission type, identity fields, mapping slots behind the count):
+        # whatever the stack reads from such a record, it may not work with a value it never got
+        optional = [(0x1800 + c, s_) for c in range(5) for s_ in (2, 3, 5)] + [(0x1400 + c, 2) for c in range(5)] + [(0x1018, s_) for s_ in (2, 3, 4)]
+        optional += [(0x1A00 + c, s_) for c in range(4) for s_ in range(5, 9)] + [(0x1600 + c, s_) for c in range(4) for s_ in range(5, 9)] + [(0x1280, 3), (0x1200, 2)]
+        gone = set(k for k in optional if rng.random() < 0.35)
+        cfg.objs = [o for o in cfg.objs if (o.idx, o.sub) not in gone]
     cfg.finalize()
     return cfg
 
